@@ -76,7 +76,7 @@ tuple        | N/A            | dse:Tuple      | tuple                  (Core gr
 udt          | N/A            | dse:UDT        | class or namedtuple    (Core graph only)
 """
 
-MAX_INT32 = 2 ** 32 - 1
+MAX_INT32 = 2 ** 31 - 1
 MIN_INT32 = -2 ** 31
 
 log = logging.getLogger(__name__)
